@@ -128,31 +128,7 @@ func checkC14(c *Ctx) {
 	}
 
 	// (2b) every successful SaveVersion / LoadVersion re-establishes lastSaved
-	c.rule("PASS-last-saved", "lastSaved follows every successful commit or load", 2)
-	if fLast := l.Field("", "MutableTree", "lastSaved"); fLast == nil {
-		c.anchorMissing("PASS-last-saved", "MutableTree.lastSaved")
-	} else {
-		for _, fn := range []*ssa.Function{sv, lv} {
-			q := mustState(fn, false, func(in ssa.Instruction) bool { return isStoreToField(in, fLast) }, nil)
-			var bad *ssa.Return
-			for _, r := range successReturns(fn) {
-				// LoadVersion on an empty store returns before anything is loaded
-				if !q(r) {
-					if fn == lv {
-						if v, ok := constInt(stripTrivial(retVal(r, 0))); ok && v == 0 {
-							continue
-						}
-					}
-					bad = r
-				}
-			}
-			pos := l.pos(fn.Pos())
-			if bad != nil {
-				pos = l.ipos(bad)
-			}
-			c.decide("PASS-last-saved", l.fname(fn)+" sets lastSaved on success", pos, bad == nil, "every success return passes the store", "a success return keeps an older lastSaved: Hash() is stale and Rollback() silently returns to an older version")
-		}
-	}
+	checkLastSaved(c)
 	// (2c) the cached first version only advances past a version that was just deleted
 	c.rule("ORDER-first-version", "first version advances only after a successful deleteVersion", 1)
 	if dvt, dv, rfv := l.Func("", "*nodeDB.deleteVersionsTo"), l.Func("", "*nodeDB.deleteVersion"), l.Func("", "*nodeDB.resetFirstVersion"); dvt == nil || dv == nil || rfv == nil {
@@ -391,6 +367,43 @@ func checkOverwriteTable(c *Ctx) {
 				}
 				c.decide("TABLE-overwrite", fmt.Sprintf("SaveVersion on an existing version: stored empty=%v working empty=%v hash equal=%v", storedEmpty, workingEmpty, equal), l.pos(sv.Pos()), got == want, got, "outcome `"+got+"`, the contract says `"+want+"` (and nothing is written either way)")
 			}
+		}
+	}
+}
+
+// checkLastSaved (shared by C14, C01, C09): every successful SaveVersion /
+// LoadVersion re-establishes lastSaved; Hash() and Rollback() are defined by
+// it.
+func checkLastSaved(c *Ctx) {
+	l := c.L
+	sv, lv := l.Func("", "*MutableTree.SaveVersion"), l.Func("", "*MutableTree.LoadVersion")
+	if sv == nil || lv == nil {
+		c.anchorMissing("PASS-last-saved", "SaveVersion / LoadVersion")
+		return
+	}
+	c.rule("PASS-last-saved", "lastSaved follows every successful commit or load", 2)
+	if fLast := l.Field("", "MutableTree", "lastSaved"); fLast == nil {
+		c.anchorMissing("PASS-last-saved", "MutableTree.lastSaved")
+	} else {
+		for _, fn := range []*ssa.Function{sv, lv} {
+			q := mustState(fn, false, func(in ssa.Instruction) bool { return isStoreToField(in, fLast) }, nil)
+			var bad *ssa.Return
+			for _, r := range successReturns(fn) {
+				// LoadVersion on an empty store returns before anything is loaded
+				if !q(r) {
+					if fn == lv {
+						if v, ok := constInt(stripTrivial(retVal(r, 0))); ok && v == 0 {
+							continue
+						}
+					}
+					bad = r
+				}
+			}
+			pos := l.pos(fn.Pos())
+			if bad != nil {
+				pos = l.ipos(bad)
+			}
+			c.decide("PASS-last-saved", l.fname(fn)+" sets lastSaved on success", pos, bad == nil, "every success return passes the store", "a success return keeps an older lastSaved: Hash() is stale and Rollback() silently returns to an older version")
 		}
 	}
 }
